@@ -14,7 +14,6 @@ type (
 	Map       = sync.Map
 	Once      = sync.Once
 	Pool      = sync.Pool
-	RWMutex   = sync.RWMutex
 	WaitGroup = sync.WaitGroup
 )
 
@@ -72,3 +71,92 @@ func (m *Mutex) Unlock() {
 		VerifOnLock(m, false)
 	}
 }
+
+// RWMutex: reader/writer lock built on a sync.Cond for the same reason as Mutex (waiters are durably blocked).
+// Semantics of sync.RWMutex: any number of readers or one writer; a waiting writer blocks new readers.
+type RWMutex struct {
+	mu             sync.Mutex
+	c              *sync.Cond
+	readers        int
+	writer         bool
+	writersWaiting int
+}
+
+func (rw *RWMutex) init() {
+	if rw.c == nil {
+		rw.c = sync.NewCond(&rw.mu)
+	}
+}
+
+func (rw *RWMutex) Lock() {
+	rw.mu.Lock()
+	rw.init()
+	rw.writersWaiting++
+	for rw.writer || rw.readers > 0 {
+		rw.c.Wait()
+	}
+	rw.writersWaiting--
+	rw.writer = true
+	rw.mu.Unlock()
+}
+
+func (rw *RWMutex) Unlock() {
+	rw.mu.Lock()
+	rw.init()
+	if !rw.writer {
+		rw.mu.Unlock()
+		panic("sync: Unlock of unlocked RWMutex")
+	}
+	rw.writer = false
+	rw.c.Broadcast()
+	rw.mu.Unlock()
+}
+
+func (rw *RWMutex) RLock() {
+	rw.mu.Lock()
+	rw.init()
+	for rw.writer || rw.writersWaiting > 0 {
+		rw.c.Wait()
+	}
+	rw.readers++
+	rw.mu.Unlock()
+}
+
+func (rw *RWMutex) RUnlock() {
+	rw.mu.Lock()
+	rw.init()
+	if rw.readers <= 0 {
+		rw.mu.Unlock()
+		panic("sync: RUnlock of unlocked RWMutex")
+	}
+	rw.readers--
+	rw.c.Broadcast()
+	rw.mu.Unlock()
+}
+
+func (rw *RWMutex) TryLock() bool {
+	rw.mu.Lock()
+	defer rw.mu.Unlock()
+	if rw.writer || rw.readers > 0 {
+		return false
+	}
+	rw.writer = true
+	return true
+}
+
+func (rw *RWMutex) TryRLock() bool {
+	rw.mu.Lock()
+	defer rw.mu.Unlock()
+	if rw.writer || rw.writersWaiting > 0 {
+		return false
+	}
+	rw.readers++
+	return true
+}
+
+func (rw *RWMutex) RLocker() Locker { return (*rlocker)(rw) }
+
+type rlocker RWMutex
+
+func (r *rlocker) Lock()   { (*RWMutex)(r).RLock() }
+func (r *rlocker) Unlock() { (*RWMutex)(r).RUnlock() }
